@@ -1,11 +1,18 @@
 """C05 - File lifecycle (spec/Session.tla histories, faults, disconnects; byte-offset cuts)."""
 import subprocess, os
-from .. import session, vlib
+import json
+from .. import session, vlib, lifetime
 
 RULE = ("every edge of the bounded lifecycle configurations of Session.tla (failed multi-step walks, fid replacement, "
         "create rebinding, xattr fids, rename/unlink of referenced entries, disconnect, an EIO at every backend call "
         "index) replayed against p9.Server with a counting backend; plus the connection cut inside the last frame of "
         "every history; distinct = distinct final steps; non-trivial = the final step closes a File, obtains one, or fails after obtaining one")
+
+LIFE_RULE = ("; schedules: every stimulus script of the Lifetime.tla scenarios (rename within / across directories, of a "
+             "directory with held entries, over a held target, racing with clunks, an in-flight request holding the last "
+             "reference, and the teardown of a second connection; Close, Renamed, GetAttr, RenameAt held at gates) executed "
+             "against p9.Server: answered requests, calls inside the backend, Close counts per File and calls on closed Files "
+             "must be a path of the specification's graph")
 
 LIFE = ["Tattach", "Twalk", "Twalkgetattr", "Tclunk", "Tremove", "Tlcreate", "Txattrwalk", "Trenameat",
         "Tunlinkat", "Tlopen", "Disconnect"]
@@ -32,11 +39,16 @@ def run(tier, seed):
         mc = [("life-d5", dict(life, MaxDepth=5)), ("fault-d4", dict(fault, MaxDepth=4)), ("twoconn-d5", dict(two, MaxDepth=5))]
         gen = [("life-d4", dict(life, MaxDepth=4), "bfs"), ("fault-d4", dict(fault, MaxDepth=4), "bfs"),
                ("twoconn-d4", dict(two, MaxDepth=4), "bfs"), ("rename-d5", dict(ren, MaxDepth=5), "bfs")]
-        cuts = "all"
-    return session.run("C05", tier, seed, mc, gen, RULE, nontrivial, cuts=cuts)
+        # every byte offset of the last frame for the fault-free histories, the four sampled offsets elsewhere
+        cuts = {"life-d4": "all", "fault-d4": "sample", "twoconn-d4": "sample", "rename-d5": "sample"}
+    return session.run("C05", tier, seed, mc, gen, RULE + LIFE_RULE, nontrivial, cuts=cuts,
+                       extra=lambda s, verdict, sums: lifetime.part("C05", tier, seed, verdict))
 
 
 def replay(path):
+    rep = json.load(open(path))
+    if rep.get("kind") == "lifetime":
+        return lifetime.replay_one(rep)
     vlib.ensure_setup(); vlib.build_harness()
     p = subprocess.run([os.path.join(vlib.BIN, "sessionreplay"), "-single", "-in", path], env=vlib.goenv())
     return p.returncode
